@@ -108,9 +108,9 @@ class Runner(object):
         t0 = time.time()
         try:
             p = subprocess.run([common.PY, DRIVER, path], env=self.env(envd), stdout=subprocess.PIPE,
-                               stderr=subprocess.PIPE, text=True, timeout=300)
+                               stderr=subprocess.PIPE, text=True, timeout=1200)
         except subprocess.TimeoutExpired:
-            return None, "driver timeout (300 s)"
+            return None, "driver timeout (1200 s)"
         finally:
             self.wall += time.time() - t0
             try:
@@ -456,6 +456,14 @@ def probe(runner):
     flags["python"] = out2["meta"].get("python")
     flags["numba"] = out2["meta"].get("numba")
     flags["openmp"] = out2["steps"][0]["P"].get("openmp")
+    # the platform facts the model states: default start method fork, omp_set_num_threads(0) stores 1
+    out3, err = runner.run(e, [["import", "P"], ["set", "P", 0], ["launch", "P", "default"]])
+    if out3 is None:
+        raise common.MachineryError("probe behaviour failed: " + err)
+    if out3["steps"][2]["P"]["gstart"] != "fork" or out3["steps"][1]["P"]["reg"] != 1 or out3["steps"][0]["P"]["reg"] != 2:
+        raise common.MachineryError("platform differs from the facts ProcState.tla assumes (default start method fork, libgomp "
+                                    "register from the affinity mask, set(0) -> 1): %s"
+                                    % [(s["P"]["gstart"], s["P"]["reg"]) for s in out3["steps"]])
     return flags
 
 
@@ -502,7 +510,7 @@ class Judge(object):
         out, err = self.runner.run(env, ops, slot)
         bad = compare_behaviour(hist, out, self.refk, self.refnb) if out is not None else (0, [("driver", "runs", err)])
         if bad is not None:
-            # a difference must reproduce with the long step limit (a busy box can delay an answer beyond 2.5 s)
+            # a difference must reproduce in a second, more patient run (a busy box delays answers)
             self.stats["retried"] += 1
             out2, err2 = self.runner.run(env, ops, slot, long_wait=True)
             bad2 = compare_behaviour(hist, out2, self.refk, self.refnb) if out2 is not None else (0, [("driver", "runs", err2)])
@@ -560,9 +568,9 @@ def run(tier, replay=None):
     chk.assumptions = ["platform facts the model states (header of ProcState.tla) hold for CPython 3.12 multiprocessing, "
                        "GNU libgomp and numba 0.67 with its OpenMP threading layer; versions are recorded in the evidence "
                        "and the numba configurations are skipped (noted) under another threading layer",
-                       "a child that does not answer a step within 1 s while all its threads sleep without using cpu time "
-                       "(or within 20 s otherwise) is stuck; a difference from the model must reproduce in a second run "
-                       "that waits the full 20 s",
+                       "a child that does not answer a step within 1 s (numba kernels 4 s) while all its threads sleep without "
+                       "using cpu time is stuck (a running / runnable child is waited for up to 240 s); a difference from "
+                       "the model must reproduce in a second run that requires three such observations of 1 s",
                        "thread counts <= 4, affinity masks of 1..4 cpus, one child per behaviour",
                        "do_index runs with stub indexer / columnfile objects (its own body is the real one)"]
     flags = probe(runner)
